@@ -85,3 +85,70 @@ Definition sel_ok (fuel : nat) (s : selection) : Prop :=
   Forall (flow_ok fuel) (s_start s) /\ Forall (flow_ok fuel) (s_user s)
   /\ Forall (flow_ok fuel) (s_end s).
 
+(* ---- every selected flow ------------------------------------------------------ *)
+
+Definition sel_flows (s : selection) : list flow := s_start s ++ s_user s ++ s_end s.
+
+(* ---- acyclicity without a bound: some rank decreases along every connection -- *)
+
+Definition acyclic (g : dgraph) : Prop := exists rk, ranked g rk.
+Definition flow_acyclic (f : flow) : Prop := acyclic (freq f) /\ acyclic (fres f).
+
+(* the rank of an acyclic direction compressed below its number of nodes + 1:
+   the number of nodes whose (given) rank is at most that of k *)
+Definition crank (g : dgraph) (rk : key -> nat) (k : key) : nat :=
+  length (filter (fun n => Nat.leb (rk (fst n)) (rk k)) (nodes g)).
+
+(* ---- open finding F-C04d: the answer of a processor without response node ----
+
+   The text: "When a processor answers the request itself, the rest of the
+   request path is skipped and the response path continues from that processor's
+   response connection."  Read for a processor that has NO node on the response
+   side of its flow: the request is answered all the same (nothing continues in
+   that flow).  [users_prefix_text] / [req_order_text] are the order of the text
+   under that reading: an answering processor ends the user flows whether or not
+   it has a response-side node.  The code instead fails the transaction
+   ("failed to get response node"): the early response is dropped, the
+   end-system request flows and the response path do not run. *)
+Section Text.
+  Variable fuel : nat.
+  Variable beh : oracles.
+
+  Fixpoint users_prefix_text (fs : list flow) : list flow * option (Z * key) :=
+    match fs with
+    | [] => ([], None)
+    | f :: rest =>
+        match snd (flow_walk fuel beh Req None f) with
+        | Handed k | NoRespNode k => ([f], Some (fname f, k))
+        | _ => let p := users_prefix_text rest in (f :: fst p, snd p)
+        end
+    end.
+
+  Definition req_order_text (s : selection) (s2 : option selection) : list event :=
+    flat_map (flow_events fuel beh Req None) (s_start s)
+    ++ flat_map (flow_events fuel beh Req None) (fst (users_prefix_text (s_user s)))
+    ++ flat_map (flow_events fuel beh Req None) (s_end s)
+    ++ match snd (users_prefix_text (s_user s)), s2 with
+       | Some h, Some s' => res_order fuel beh s' (Some h)
+       | _, _ => []
+       end.
+End Text.
+
+(* the classifier of F-C04d (what the monitor computes over the observed
+   events): a request-direction event whose processor answers the request and
+   whose flow - one of the flows [fs] that may run - has no node of that key on
+   its response side *)
+Definition dropped_event (beh : oracles) (fs : list flow) (e : event) : bool :=
+  is_req (e_dir e) && answers (beh (e_flow e)) (e_dir e) (e_key e)
+  && existsb (fun f => (fname f =? e_flow e) && negb (has_node (fres f) (e_key e))) fs.
+Definition answer_dropped (beh : oracles) (fs : list flow) (t : list event) : bool :=
+  existsb (dropped_event beh fs) t.
+
+(* ---- the shape of the system flows generated from quotas ---------------------
+   start-system flows have no response side to enter, end-system flows no
+   request side (generate_flow_representation.go: the increment goes into a
+   request chain of the START flow, the decrement into a response chain of the
+   END flow) *)
+Definition no_root (g : dgraph) : bool := match root g with None => true | Some _ => false end.
+Definition quota_shape (s : selection) : bool :=
+  forallb (fun f => no_root (fres f)) (s_start s) && forallb (fun f => no_root (freq f)) (s_end s).
